@@ -646,20 +646,20 @@ fn sweep(cfg: &Cfg, rep: &Reporter, ev_: &mut Evidence, targets: &[Target]) {
             never_ok.push(js(w.clone()));
         }
         if s.variants == 0 {
-            machinery_error(&format!("vacuous: C13 ran no tagged variant for {}", w));
+            vacuous(&format!("vacuous: C13 ran no tagged variant for {}", w));
         }
         table.push((w.clone(), J::A(vec![ji(s.tuples), ji(s.baseline_ok), ji(s.variants), ji(s.nontrivial)])));
     }
     if g.per_word.len() != targets.len() {
-        machinery_error("vacuous: C13 did not reach every target word");
+        vacuous("vacuous: C13 did not reach every target word");
     }
     for t in ["empty", "k:v", "tags-on-tags", "#fmt"] {
         if g.by_tagmap.get(t).copied().unwrap_or(0) == 0 {
-            machinery_error(&format!("vacuous: C13 never used tag map {}", t));
+            vacuous(&format!("vacuous: C13 never used tag map {}", t));
         }
     }
     if g.nested_variants == 0 {
-        machinery_error("vacuous: C13 ran no nested-tag variant");
+        vacuous("vacuous: C13 ran no nested-tag variant");
     }
     ev_.states += tuples;
     ev_.transitions += g.runs;
@@ -927,7 +927,7 @@ fn tag_word_model(cfg: &Cfg, rep: &Reporter, ev_: &mut Evidence, mixed: bool) {
     let g = agg.into_inner().unwrap();
     for w in ["with-tags", "^{", "insert-tag", "remove-tag"] {
         if g.3.get(w).copied().unwrap_or(0) == 0 {
-            machinery_error(&format!("vacuous: C13 tag-word model never executed {}", w));
+            vacuous(&format!("vacuous: C13 tag-word model never executed {}", w));
         }
     }
     ev_.states += g.0;
@@ -966,11 +966,11 @@ pub fn run(cfg: &Cfg) -> i32 {
     }
     let n_words = targets.len();
     if n_words < 100 {
-        machinery_error(&format!("vacuous: C13 found only {} run-time words in the dictionary", n_words));
+        vacuous(&format!("vacuous: C13 found only {} run-time words in the dictionary", n_words));
     }
     for must in ["get", "insert", "remove", "nth", "+", "dup", "length", "u8", ">bitstr"] {
         if !targets.iter().any(|t| t.name == must) {
-            machinery_error(&format!("vacuous: C13 word list lacks {}", must));
+            vacuous(&format!("vacuous: C13 word list lacks {}", must));
         }
     }
     targets.extend(templates());
